@@ -319,7 +319,8 @@ def run_unit(unit_path, repo, verif_root, build_root, do_twin=True, rlimit=None)
                     n = f["function"][len(tcr) + 2:-len("__twin")].split("::")[-1]
                     ok_fns[n] = ok_fns.get(n, True) and bool(f.get("success"))
             vac = [n for n in res["extracted_fns"] if ok_fns.get(n) is True]
-            missing = [n for n in res["extracted_fns"] if n not in ok_fns]
+            no_twin = {ex["path"][-1].lstrip("^").split()[-1] for ex in unit.get("extract", []) if not ex.get("twin", True)}
+            missing = [n for n in res["extracted_fns"] if n not in ok_fns and n not in no_twin]
             res["twin"] = {"checked": sorted(ok_fns), "vacuous": vac, "not_seen": missing,
                            "wall_s": tr["wall"]}
             res["wall_s"] += tr["wall"]
